@@ -270,7 +270,7 @@ def run_driver(binary, text, timeout=1800):
 
 
 MIRI_FLAGS = ('-Zmiri-disable-isolation -Zmiri-permissive-provenance -Zmiri-tree-borrows '
-              '-Zmiri-ignore-leaks')
+              '-Zmiri-ignore-leaks -Zmiri-no-extra-rounding-error')
 
 
 def run_miri(case_text, seeds=None, timeout=3600, tag='miri'):
@@ -286,7 +286,9 @@ def run_miri(case_text, seeds=None, timeout=3600, tag='miri'):
     if seeds is not None:
         flags += ' -Zmiri-many-seeds=%d..%d' % (seeds[0], seeds[1])
     env['MIRIFLAGS'] = flags
-    args = ['cargo', '+nightly', 'miri', 'run', '--target-dir', 'target/miri', '--', path]
+    # std instead of libm: libm's x86 sqrt is inline assembly, which Miri cannot interpret
+    args = ['cargo', '+nightly', 'miri', 'run', '--no-default-features', '--features', 'std,rayon',
+            '--target-dir', 'target/miri', '--', path]
     try:
         r = subprocess.run(args, cwd=HARNESS, env=env, capture_output=True, text=True, timeout=timeout)
     except subprocess.TimeoutExpired:
@@ -299,8 +301,14 @@ def run_miri(case_text, seeds=None, timeout=3600, tag='miri'):
         pass
     err = r.stderr
     report = None
-    if 'Undefined Behavior' in err or 'Data race detected' in err or 'error: unsupported operation' in err:
-        report = err[-6000:]
+    if 'Undefined Behavior' in err or 'Data race detected' in err:
+        i = err.find('error: Undefined Behavior')
+        if i < 0:
+            i = err.find('Data race detected')
+        report = err[max(0, i - 200):i + 5000]
+    elif 'error: unsupported operation' in err:
+        i = err.find('error: unsupported operation')
+        raise Inconclusive('Miri cannot interpret an operation the driver reached (tool limitation, not a finding): %s' % err[i:i + 600])
     elif r.returncode != 0:
         raise Inconclusive('miri run failed (exit %d): %s' % (r.returncode, err[-3000:]))
     # with many-seeds the outputs of all seeds are concatenated; split on repeated case ids
